@@ -125,4 +125,12 @@ PROPS = {
         need_events=["handler_invocations", "blocked_handler_scenarios"],
         assumptions=TRUST + ["the in-memory transport and listener replace the kernel; quiescence (all goroutines durably blocked) replaces wall-clock waiting"],
     ),
+    "C09": dict(
+        level="exploration",
+        rule="exhaustive decision table on a fresh ServeMux: all 2^9 subsets of nine registration keys around a message's own key (own index; index differing in application, in code, in the R bit; own short name+R/A; the opposite R/A name; another command's name; ALL by name; ALL_CMD_INDEX by index) x 12 messages (request/answer x base commands, application commands, an application id that falls back to the base dictionary, an unknown application id), every handler instrumented with its key, followed by re-registration of every key with a second handler; commands the dictionary does not resolve; a sample of rows through a real connection; and concurrent histories of re-registration and dispatch by 2..4 goroutines recorded at the call boundary and checked with porcupine against the sequential model 'three slots + decision function'. distinct_nontrivial counts distinct selected-handler classes and history shapes.",
+        runs=dict(quick=[race("TestC09", 8)], thorough=[race("TestC09", 16, 3000)]),
+        floor=dict(quick=700, thorough=10000),
+        need_events=["dispatches", "histories_linearizable"],
+        assumptions=TRUST + ["only messages whose command the dictionary resolves can be 'incoming' (ReadMessage rejects the others); the reference decision function is 10 lines"],
+    ),
 }
